@@ -201,13 +201,12 @@ impl Check for PathProp {
     }
     fn default_runs(&self, tier: Tier) -> u64 {
         let q = match self.id {
-            "C03" => 12_000,
-            "C06" => 20_000,
-            _ => 20_000,
+            "C03" => 60_000,
+            _ => 100_000,
         };
         match tier {
             Tier::Quick => q,
-            Tier::Thorough => q * 25,
+            Tier::Thorough => q * 20,
         }
     }
     fn assumptions(&self) -> Vec<String> {
@@ -571,8 +570,8 @@ impl Check for C07 {
     }
     fn default_runs(&self, tier: Tier) -> u64 {
         match tier {
-            Tier::Quick => 12_000,
-            Tier::Thorough => 300_000,
+            Tier::Quick => 60_000,
+            Tier::Thorough => 1_200_000,
         }
     }
     fn assumptions(&self) -> Vec<String> {
@@ -888,7 +887,7 @@ impl Check for C08 {
     fn default_runs(&self, tier: Tier) -> u64 {
         let l = c08_layout(tier);
         let fixed: u64 = l.n_seq.iter().sum::<u64>() + l.n_fault + l.n_param;
-        fixed + if tier == Tier::Thorough { 200_000 } else { 8_000 }
+        fixed + if tier == Tier::Thorough { 1_000_000 } else { 60_000 }
     }
     fn assumptions(&self) -> Vec<String> {
         vec!["after a panic the scenario stops (the planner may be left inconsistent); the panic itself is the violation".into()]
